@@ -241,13 +241,15 @@ def instances(tier):
         out.append(I("-".join(s), "make", (s, False, None if full else "plu"),
                      f"events {s}; " + ("every None pattern" if full else "proposals fully specified (preference + both bounds)"),
                      budget_s=300, validate_every=200))
-    extra = [("reg", "op", "partial"), ("reg", "op", "bounds", "partial"), ("reg", "op", "expire", "bounds")]
+    extra = [("reg", "op", "partial"), ("reg", "op", "expire", "bounds")]
     if tier != "quick":
-        extra.append(("op", "reg", "expire", "reg"))
+        extra += [("op", "reg", "expire", "reg"), ("reg", "op", "bounds", "partial")]
     for s in extra:
         out.append(I("-".join(s), "make", (s, False, "plu"), f"events {s}; proposals fully specified", budget_s=300, validate_every=200))
-    runs = [("reg", "op", "bounds"), ("op", "reg", "bounds"), ("reg", "op", "reg", "stale_partial"), ("reg", "op", "bounds", "stale_partial"),
-            ("reg", "op", "success", "bounds"), ("reg", "op", "sleep62", "bounds"), ("reg", "bounds", "op", "partial")]
+    runs = [("reg", "op", "bounds"), ("op", "reg", "bounds"), ("reg", "op", "bounds", "stale_partial"),
+            ("reg", "op", "sleep62", "bounds"), ("reg", "bounds", "op", "partial")]
+    if tier != "quick":
+        runs += [("reg", "op", "reg", "stale_partial"), ("reg", "op", "success", "bounds"), ("op", "reg", "bounds", "bounds")]
     for s in runs:
         out.append(I("run:" + "-".join(s), "make_run", (s,), f"real _run loop and _bounds_tracker over channels, events {s}; proposals fully specified",
                      budget_s=300, validate_every=500))
